@@ -17,6 +17,19 @@ Inductive site_class :=
   | SetBeforeUse          (* a thread_local cell that every printer sets from the report itself (set_print_context, first
                              statement of print_internal / print_json) before the only reader (Display for Address) can run in
                              the same synchronous call: no value survives from one report to the next *)
+  | SymbolizerC12         (* the Symbolizer shared by all the walks: per-key FutMutex slots in a CacheMap, the pending_stats
+                             counters and the stats map behind std Mutexes.  This IS the C12 model ([shared]: lock / value / req /
+                             proc / stats); what the walks get out of it is schedule independent: c13_stacks_schedule_independent,
+                             c13_adaptive_walks_schedule_independent, c13_stats_independent, c13_adaptive_stats_independent *)
+  | ReporterOnly          (* PendingProcessorStats behind options.stat_reporter: written by the walks (add_walked_frame,
+                             inc_processed_threads), read only by whoever holds the reporter — never by the walks, never by
+                             into_process_state after add_unwalked_result, never by a printer: not part of the report.  Its
+                             writes commute anyway (c13_post_walk_commuting_independent, counter_post) *)
+  | SharedImmutable       (* a `&` to data that nobody can write while the futures live (no cell inside: the scan of
+                             interior_mutable_sites lists none in MinidumpMemoryList / MinidumpModuleList / SystemInfo /
+                             MinidumpUnloadedModuleList / ProcessorOptions apart from the reporter) *)
+  | OwnSlotOnly           (* a statement of future i that reads shared immutable data and writes only slot i (`stack`) or its
+                             own locals: c13_walks_in_place_*, c13_post_walk_readonly_independent *)
   | InPlaceByIndex.       (* join_all over iter_mut(): future i owns slot i, results are not collected at all:
                              c13_walks_in_place_interleaving_independent, c13_join_by_index *)
 
@@ -39,4 +52,41 @@ Definition modelled_concurrency_sites : list ((string * string * string) * site_
    the evaluations of different walks) has to be argued here before the check is green again *)
 Definition modelled_shared_state_sites : list ((string * string * string) * site_class) := [
   (("processor/process_state.rs", "thread_local SERIALIZATION_CONTEXT", "RefCell<SerializationContext>"), SetBeforeUse)
+].
+
+(* ---- round 5: state shared by the per-thread futures of into_process_state *)
+(* every cell that can be written through a shared reference, static or not *)
+Definition modelled_interior_mutable_sites : list ((string * string * string) * site_class) := [
+  (("processor/processor.rs", "struct PendingProcessorStats.stats", "Arc<Mutex<PendingProcessorStatsInner>>"), ReporterOnly);
+  (("breakpad-symbols/lib.rs", "struct CachedAsyncResult.inner", "FutMutex<Option<Arc<Result<T,E>>>>"), SymbolizerC12);
+  (("breakpad-symbols/lib.rs", "default", "inner:FutMutex::new(None)"), SymbolizerC12);
+  (("breakpad-symbols/lib.rs", "struct Symbolizer.symbols", "CacheMap<ModuleKey,CachedAsyncResult<SymbolFile,SymbolError>>"), SymbolizerC12);
+  (("breakpad-symbols/lib.rs", "struct Symbolizer.pending_stats", "Mutex<PendingSymbolStats>"), SymbolizerC12);
+  (("breakpad-symbols/lib.rs", "struct Symbolizer.stats", "Mutex<HashMap<String,SymbolStats>>"), SymbolizerC12);
+  (("breakpad-symbols/lib.rs", "new", "symbols:CacheMap::default()"), SymbolizerC12);
+  (("breakpad-symbols/lib.rs", "new", "pending_stats:Mutex::default()"), SymbolizerC12);
+  (("breakpad-symbols/lib.rs", "new", "stats:Mutex::default()"), SymbolizerC12)
+].
+
+(* what the per-thread future `.map(|(i, (stack, thread))| async move { .. })` uses from outside itself *)
+Definition modelled_walk_future_captures : list ((string * string * string) * site_class) := [
+  (("processor/processor.rs", "into_process_state/walk future", "memory_list=let:&self.memory_list"), SharedImmutable);
+  (("processor/processor.rs", "into_process_state/walk future", "options=let:&self.options"), ReporterOnly);
+  (("processor/processor.rs", "into_process_state/walk future", "modules=let:&state.modules"), SharedImmutable);
+  (("processor/processor.rs", "into_process_state/walk future", "system_info=let:&state.system_info"), SharedImmutable);
+  (("processor/processor.rs", "into_process_state/walk future", "symbol_provider=param:&P"), SymbolizerC12);
+  (("processor/processor.rs", "into_process_state/walk future", "unloaded_modules=let:&state.unloaded_modules"), SharedImmutable)
+].
+
+(* its statements in order.  Only walk_stack awaits: everything after it runs in one piece when the walk finishes (C13/Budget.v
+   [post]); none of those statements writes anything shared except the reporter, so [post_readonly] is the instance that applies *)
+Definition modelled_walk_future_steps : list ((string * string * string) * site_class) := [
+  (("processor/processor.rs", "into_process_state/walk future", "letmutstack_memory=thread.stack_memory(memory_list);|uses:memory_list"), OwnSlotOnly);
+  (("processor/processor.rs", "into_process_state/walk future", "letstack_ptr=stack.frames.first().map(|ctx_frame|ctx_frame.context.get_stack_pointer());|uses:"), OwnSlotOnly);
+  (("processor/processor.rs", "into_process_state/walk future", "ifletSome(stack_ptr)=stack_ptr{letcontains_stack_ptr=stack_memory.as_ref().and_then(|memor|uses:memory_list"), OwnSlotOnly);
+  (("processor/processor.rs", "into_process_state/walk future", "walk_stack(i,|frame_idx:usize,frame:&StackFrame|{ifletSome(reporter)=options.stat_reporter|uses:options,modules,system_info,symbol_provider|awaits"), SymbolizerC12);
+  (("processor/processor.rs", "into_process_state/walk future", "forframein&mutstack.frames{ifframe.module.is_none(){letmutoffsets=BTreeMap::new();forunloa|uses:unloaded_modules"), OwnSlotOnly);
+  (("processor/processor.rs", "into_process_state/walk future", "ifoptions.recover_function_args{arg_recovery::fill_arguments(stack,stack_memory);}|uses:options"), OwnSlotOnly);
+  (("processor/processor.rs", "into_process_state/walk future", "ifletSome(reporter)=options.stat_reporter{reporter.inc_processed_threads();}|uses:options"), ReporterOnly);
+  (("processor/processor.rs", "into_process_state/walk future", "stack|uses:"), OwnSlotOnly)
 ].
